@@ -641,6 +641,26 @@ def channel_specs():
             return m, list(getattr(m, "convgru", m).conv_blocks), 2, cin, h
         add(f"fwc_gru_{cin}_{h}_{cout}_L{layers}_d{dense}" + ("_norm" if norm else ""),
             f"Shapes.gruChanFallback {cin} {h} {cout} {layers}", bu)
+    # learned initialisers (dilated convolutions, multi-scale concatenation `channels[-multiscale_depth:]`): instance checks
+    for kind, cin, cout, chs, dil, ms, depth in [("lagrange", 2, 2, (2, 3, 4, 5), (1, 1, 2, 4), 1, 0), ("lagrange", 2, 3, (2, 3, 4), (1, 2, 4), 3, 0),
+                                                ("lagrange", 2, 2, (3, 4, 5, 6), (1, 1, 2, 4), 2, 0), ("lagrange3d", 2, 2, (2, 3, 4), (1, 1, 2), 2, 0),
+                                                ("riminit", 2, 5, (2, 3, 4), (1, 1, 2), 2, 2), ("recurrentinit", 2, 4, (2, 3, 4, 6), (1, 1, 2, 4), 3, 3)]:
+        def bu(kind=kind, cin=cin, cout=cout, chs=chs, dil=dil, ms=ms, depth=depth):
+            if kind == "lagrange":
+                from direct.nn.vsharp.vsharp import LagrangeMultipliersInitializer as C
+                m = C(cin, cout, channels=chs, dilations=dil, multiscale_depth=ms)
+            elif kind == "lagrange3d":
+                from direct.nn.vsharp.vsharp import LagrangeMultipliersInitializer3D as C
+                m = C(cin, cout, channels=chs, dilations=dil, multiscale_depth=ms)
+            elif kind == "riminit":
+                from direct.nn.rim.rim import RIMInit
+                m = RIMInit(cin, cout, channels=chs, dilations=dil, depth=depth, multiscale_depth=ms)
+            else:
+                from direct.nn.recurrentvarnet.recurrentvarnet import RecurrentInit
+                m = RecurrentInit(cin, cout, channels=chs, dilations=dil, depth=depth, multiscale_depth=ms)
+            return m, [], 1, cin, None
+        fb = (f"Shapes.lagrangeC {cin} {cout} {list(chs)} {ms}" if kind.startswith("lagrange") else f"[Shapes.COp.conv {cin} {cout}]")
+        add(f"fwc_{kind}_{cin}_{cout}_ms{ms}", fb, bu)
     return specs
 
 
@@ -690,10 +710,11 @@ def schedule_tables():
         warnings.filterwarnings("ignore")
         import boot  # noqa: F401
 
+        from props import c17_zoo as X
         from props import zoo_common as Z
 
         from .c17_sched import io_channels, scan_schedule_full
-        entries = Z.recons() + Z.recons3d()
+        entries = Z.recons() + Z.recons3d() + X.schedule_entries()
         err = None
     except Exception as e:  # noqa: BLE001
         entries, err = [], f"cannot import the implementation: {type(e).__name__}: {e}"
@@ -706,8 +727,8 @@ def schedule_tables():
         fallback = None
         try:
             m = e.model()
-            term = Z.sched_term(e, m)
-            sch = Z.schedule(e, m)
+            term = X.sched_term(e, m)
+            sch = X.schedule(e, m)
             if term is None or sch is None:
                 continue
             fallback = f"Shapes.Sched.blocks ({term[0]}) {term[1]}"
